@@ -170,6 +170,13 @@ func drawScript(t *rapid.T, tag byte, withDialect bool, key *[32]byte, maxSeg in
 			}
 			out = append(out, seg{kind: k, bytes: b})
 		}
+		// a sender that repeats itself: the refused frame just generated arrives once more, byte for byte (a beacon
+		// with a hard-coded frame, a log replayed in a loop) - each copy is refused and reported on its own
+		if last := out[len(out)-1]; !strings.HasPrefix(last.kind, "valid") && last.kind != "junk" && rapid.IntRange(0, 3).Draw(t, "refused_frame_repeated") == 0 {
+			for k := rapid.IntRange(1, 2).Draw(t, "repeats"); k > 0; k-- {
+				out = append(out, seg{kind: last.kind, bytes: last.bytes})
+			}
+		}
 	}
 	return out
 }
